@@ -63,7 +63,7 @@ S8 = {"flavor": "int", "kind": "intcountervec", "keys": [], "maxid": 0, "threads
 INVS = "LockSafety OneChildPerKey FreshHandleIsCurrent IdsBounded"
 
 
-def run_scenario(ctx, exe, sc, label, stats, samples, model=True, nrandom=0, kinds=None, nproc=8, check=True):
+def run_scenario(ctx, exe, sc, label, stats, samples, model=True, nrandom=0, kinds=None, nproc=8, check=True, pb=None):
     d = {"MCScript": script_tla(sc["scripts"])}
     r = {"ok": True, "actions_never": []} if not check else tlc(ctx, "VecImpl", "CONSTANTS\n%s\nSPECIFICATION Spec\nINVARIANTS %s\nPROPERTIES Termination RefinesVec\nCHECK_DEADLOCK FALSE\n" % (consts(sc), INVS),
             mc_text=mc_module("MC" + label, "VecImpl", d), mc_name="MC" + label, workers=8, label="inv" + label)
@@ -94,6 +94,15 @@ def run_scenario(ctx, exe, sc, label, stats, samples, model=True, nrandom=0, kin
                 x["kind"] = kind
             results += res
             stats["random"] += len(res)
+    # preemption-bounded systematic search on the real code (independent of the step-level model)
+    pbb = pb or ((2, 300) if ctx.quick else (3, 10000))
+    for kind in kinds:
+        res, info = pb_explore(ctx, exe, harness_scen(sc, kind), label + kind, pbb[0], pbb[1], nproc=nproc)
+        for x in res:
+            x["kind"] = kind
+        results += res
+        stats["pb_executions"] = stats.get("pb_executions", 0) + info["executions"]
+        stats["pb_searches"] = stats.get("pb_searches", 0) + 1
     seen = {}
     for x in results:
         rp = {"scenario": harness_scen(sc, x["kind"]), "job": {"id": x["id"], "mode": "choices", "choices": x["choices"]}}
@@ -156,13 +165,13 @@ def run(ctx):
         run_scenario(ctx, exe, S2, "S2", stats, samples, nrandom=100, kinds=["intcountervec"])
         run_scenario(ctx, exe, S3, "S3", stats, samples, nrandom=100, kinds=["countervec"])
         run_scenario(ctx, exe, S6, "S6", stats, samples, nrandom=300, kinds=["intcountervec"])
-        run_scenario(ctx, exe, S8, "S8", stats, samples, model=False, check=False, nrandom=40, kinds=["intcountervec"])
+        run_scenario(ctx, exe, S8, "S8", stats, samples, model=False, check=False, nrandom=40, kinds=["intcountervec"], pb=(2, 40))
         # composition: a vector of HISTOGRAMS (children are sharded histograms, updates are observe calls)
         run_scenario(ctx, exe, S2, "S2h", stats, samples, model=False, check=False, nrandom=150, kinds=["histogramvec"])
     else:
         for sc, lb in ((S1, "S1h"), (S2, "S2h"), (S3, "S3h"), (S6, "S6h")):
             run_scenario(ctx, exe, sc, lb, stats, samples, model=False, check=False, nrandom=3000, kinds=["histogramvec"])
-        run_scenario(ctx, exe, S8, "S8", stats, samples, model=False, check=False, nrandom=1500, kinds=["intcountervec", "countervec"])
+        run_scenario(ctx, exe, S8, "S8", stats, samples, model=False, check=False, nrandom=1500, kinds=["intcountervec", "countervec"], pb=(2, 1500))
         run_scenario(ctx, exe, S6, "S6", stats, samples, nrandom=3000, kinds=["intcountervec", "countervec"])
         run_scenario(ctx, exe, S7, "S7", stats, samples, model=False, nrandom=10000, kinds=["intcountervec"])
         run_scenario(ctx, exe, S1, "S1", stats, samples, nrandom=2000, kinds=["intcountervec"])
